@@ -3,19 +3,30 @@
 (* attestation aggregator (AggregatorsAndSignatures) and controller (HandleHeadEvent ->         *)
 (* refreshAttesterDutiesForEpoch, subscribeToBeaconCommittees, AttestAndScheduleAggregate) is a *)
 (* behaviour of Subscriber.                                                                     *)
-(*   Duty       the scripted duty oracle gains (op "add") or loses (op "drop") a duty; h is     *)
-(*              computed by the driver from the signature its scripted signer hands out for     *)
-(*              (validator, slot)                                                               *)
+(*   Duty       the scripted duty oracle gains (op "add") or loses (op "drop") a duty, or a     *)
+(*              re-org leaves the validator its slot but changes committee index / length (op   *)
+(*              "move"; ocommittee, osize = what the oracle had), or a committee gets another   *)
+(*              length (op "resize"); h is computed by the driver from the signature its        *)
+(*              scripted signer hands out for (validator, slot)                                 *)
 (*   Subscribe  a synchronous subscribeToBeaconCommittees; ok = the scripted beacon node        *)
 (*              answered; info = the controller's stored subscription info for the epoch after  *)
 (*              the call, subs = what the recording submitter received (after the submit        *)
-(*              goroutine ended)                                                                *)
+(*              goroutine ended); sfail = the slots whose SignSlotSelections call the scripted  *)
+(*              signer refused during this call                                                 *)
 (*   Head       HandleHeadEvent returned and everything it started has ended or is held at the  *)
 (*              gate of the scripted beacon node; reorg = the event carried a changed duty      *)
 (*              dependent root that concerns the epoch; resub = re-subscriptions newly held at  *)
 (*              the gate; info = the stored info                                                *)
 (*   Resub      a held re-subscription was let go (ok: the node answers; ~ok: the node fails)   *)
 (*              and has ended; info = the stored info afterwards, subs as for Subscribe         *)
+(*   Fetch      a held re-subscription was let go at the beacon node (it fetched the duties as  *)
+(*              they are now) and is held again INSIDE the real attestation aggregator: its     *)
+(*              SignSlotSelections call for slot hs is parked in the scripted signer (id = the  *)
+(*              number of the parked call).  A re-subscription that never reached the signer    *)
+(*              for that slot ran to its end and is logged as Resub.                            *)
+(*   Finish     the parked call id was answered and its subscription has ended; info / subs as  *)
+(*              for Resub.  ONE real subscriber, aggregator and controller for the whole        *)
+(*              history: whatever ran between Fetch and Finish ran on the same instances.       *)
 (*   Attest     jobs = the aggregation jobs found in the fake scheduler after the call, each    *)
 (*              with the validator of the Aggregate duty it carries, whether that duty carries  *)
 (*              the validator's slot signature and the attestation data root, and whether the   *)
@@ -42,6 +53,8 @@ TraceInit ==
     /\ subAt = NoSub
     /\ nsub = 0
     /\ inflight = 0
+    /\ held = {}
+    /\ nheld = 0
     /\ nref = 0
     /\ nchg = 0
     /\ jobs = {}
@@ -64,6 +77,8 @@ TraceReset ==
     /\ subAt' = NoSub
     /\ nsub' = 0
     /\ inflight' = 0
+    /\ held' = {}
+    /\ nheld' = 0
     /\ nref' = 0
     /\ nchg' = 0
     /\ jobs' = {}
@@ -74,12 +89,15 @@ TraceDuty ==
     /\ IsEvent("Duty")
     /\ LET t == Trace[l]
            d == [v |-> t.v, slot |-> t.slot, committee |-> t.committee, size |-> t.size, h |-> t.h] IN
-         IF t.op = "drop" THEN DropDuty(d) ELSE AddDuty(d)
+         CASE t.op = "drop"   -> DropDuty(d)
+           [] t.op = "move"   -> MoveDuty([d EXCEPT !.committee = t.ocommittee, !.size = t.osize], d)
+           [] t.op = "resize" -> ResizePair(t.slot, t.committee, t.size)
+           [] OTHER           -> AddDuty(d)
 
 TraceAdvance ==
     /\ IsEvent("Advance")
     /\ now' = Trace[l].now
-    /\ UNCHANGED <<target, geo, duties, started, info, infoD, submitted, subAt, nsub, inflight, nref, nchg, jobs, attests, done>>
+    /\ UNCHANGED <<target, geo, duties, started, info, infoD, submitted, subAt, nsub, inflight, held, nheld, nref, nchg, jobs, attests, done>>
 
 \* the part of a store an attestation job can still read with effect
 Rel(I, t, dn) == {e \in I : e.agg /\ e.slot >= t /\ e.slot \notin dn}
@@ -88,7 +106,7 @@ StoreKept(logged) == Rel(SeqToSet(logged), now, done) = Rel(info', now, done)
 TraceSubscribe ==
     /\ IsEvent("Subscribe")
     /\ IF Trace[l].ok
-       THEN SubscribeWith(SeqToSet(Trace[l].info), SeqToSet(Trace[l].subs))
+       THEN SubscribeWithF(SeqToSet(Trace[l].info), SeqToSet(Trace[l].subs), SeqToSet(Trace[l].sfail))
        ELSE SubscribeFail /\ StoreKept(Trace[l].info)
 
 TraceHead ==
@@ -101,8 +119,19 @@ TraceHead ==
 TraceResub ==
     /\ IsEvent("Resub")
     /\ IF Trace[l].ok
-       THEN ResubOk(SeqToSet(Trace[l].info), SeqToSet(Trace[l].subs))
+       THEN ResubOkF(SeqToSet(Trace[l].info), SeqToSet(Trace[l].subs), SeqToSet(Trace[l].sfail))
        ELSE ResubFail /\ StoreKept(Trace[l].info)
+
+TraceFetch ==
+    /\ IsEvent("Fetch")
+    /\ ResubFetch(Trace[l].hs)
+    /\ Trace[l].id = nheld'
+
+TraceFinish ==
+    /\ IsEvent("Finish")
+    /\ \E c \in held :
+          /\ c.id = Trace[l].id
+          /\ HeldFinish(c, SeqToSet(Trace[l].info), SeqToSet(Trace[l].subs))
 
 LoggedJobs(js) == {[slot |-> j.slot, committee |-> j.committee, v |-> j.v, at |-> j.at, exact |-> JobExact(j)] : j \in js}
 
@@ -114,7 +143,8 @@ TraceAttest ==
          /\ jobs' = jobs \cup LoggedJobs(js)
          /\ \A j \in js : j.sigok /\ j.rootok /\ j.inslot
 
-TraceNext == TraceReset \/ TraceDuty \/ TraceAdvance \/ TraceSubscribe \/ TraceHead \/ TraceResub \/ TraceAttest
+TraceNext == TraceReset \/ TraceDuty \/ TraceAdvance \/ TraceSubscribe \/ TraceHead \/ TraceResub \/ TraceFetch \/ TraceFinish
+             \/ TraceAttest
 
 TraceSpec == TraceInit /\ [][TraceNext]_tvars
 
